@@ -288,7 +288,8 @@ func (m *c16Model) Register(h lntypes.Hash, s c16Spec) c16Exp {
 		panic("generator produced an attempt id of another payment")
 	}
 	p.Atts[s.ID] = &c16Att{ID: s.ID, Amt: s.Amt, Fee: s.Fee, Kind: s.Kind,
-		Total: s.Total, Addr: s.Addr, State: c16InFlight}
+		Total: s.Total, Addr: s.Addr, State: c16InFlight,
+		RouteFP: c16RouteFP(&c16MakeAttempt(h, s).Route)}
 	if s.Kind == c16Plain {
 		p.Atts[s.ID].Total, p.Atts[s.ID].Addr = 0, 0
 	}
